@@ -1167,6 +1167,10 @@ fn points(rng: &mut Rng, ids: &mut Vec<String>) -> Vec<PV> {
         &["line", "offcurve", "qcurve", "offcurve", "offcurve", "qcurve"],
         &["offcurve", "offcurve", "offcurve"],
         &["curve", "line", "offcurve", "offcurve"],
+        &["offcurve", "curve", "line"],
+        &["qcurve", "offcurve", "offcurve", "offcurve"],
+        &["offcurve", "qcurve", "offcurve", "offcurve"],
+        &["offcurve", "offcurve", "offcurve", "offcurve", "qcurve"],
         &["move"],
     ];
     let t = *rng.pick(templ);
@@ -1999,6 +2003,61 @@ fn layer_order_cases(rng: &mut Rng, thorough: bool) -> Vec<PV> {
     out
 }
 
+/// closed contours an independent writer may start ANYWHERE: every rotation of the cyclic point list of
+/// quadratic contours (one `qcurve` with 0..6 off-curves; `line` + 0..6 off-curves + `qcurve`), contours of off-curve
+/// points only, cubic contours with 0 / 1 / 2 off-curves (so that the seam splits the run in every way).
+/// One font per family, one glyph per rotation.
+fn contour_rotation_cases() -> Vec<PV> {
+    let mut fonts: Vec<(String, Vec<Vec<&'static str>>)> = Vec::new();
+    for k in 0..=6usize {
+        let mut a = vec!["qcurve"];
+        a.extend(std::iter::repeat("offcurve").take(k));
+        let mut b = vec!["line"];
+        b.extend(std::iter::repeat("offcurve").take(k));
+        b.push("qcurve");
+        fonts.push((format!("q{}", k), vec![a, b]));
+    }
+    fonts.push(("off".to_string(), (1..=5).map(|n| vec!["offcurve"; n]).collect()));
+    fonts.push(("cubic".to_string(), vec![vec!["line", "curve"], vec!["line", "offcurve", "curve"], vec!["line", "offcurve", "offcurve", "curve"],
+        vec!["curve", "offcurve", "offcurve", "curve", "offcurve", "curve"]]));
+    let mut out = Vec::new();
+    for (fam, bases) in fonts {
+        let mut glyphs = Vec::new();
+        for (bi, base) in bases.iter().enumerate() {
+            let rots = if base.iter().all(|t| *t == "offcurve") { 1 } else { base.len() };
+            for r in 0..rots {
+                let mut g = d();
+                g.insert("name".into(), PV::S(format!("{}b{}r{}", fam, bi, r)));
+                g.insert("width".into(), PV::R(500.0));
+                g.insert("height".into(), PV::R(0.0));
+                let pts: Vec<PV> = (0..base.len())
+                    .map(|i| {
+                        let j = (i + r) % base.len();
+                        let mut m = d();
+                        m.insert("x".into(), PV::R(10.0 * j as f64));
+                        m.insert("y".into(), PV::R(((j * j) % 7) as f64 * 5.0));
+                        m.insert("type".into(), s(base[j]));
+                        m.insert("smooth".into(), PV::B(false));
+                        PV::D(m)
+                    })
+                    .collect();
+                let mut c = d();
+                c.insert("points".into(), PV::A(pts));
+                g.insert("contours".into(), PV::A(vec![PV::D(c)]));
+                glyphs.push(PV::D(g));
+            }
+        }
+        let mut l = d();
+        l.insert("name".into(), s("public.default"));
+        l.insert("dir".into(), s("glyphs"));
+        l.insert("glyphs".into(), PV::A(glyphs));
+        let mut m = d();
+        m.insert("layers".into(), PV::A(vec![PV::D(l)]));
+        out.push(PV::D(m));
+    }
+    out
+}
+
 /// the independent writer may name the glif files by the UFO convention (capitals included) instead of `g<i>_.glif`
 fn with_conv_files(desc: &PV) -> PV {
     let mut top = desc.dict().clone();
@@ -2287,8 +2346,14 @@ pub fn gen(tier: &str, seed: u64, out: &mut dyn Write) {
     }
     // ---- layer order at the thresholds of sort / rotate implementations: independent writer -> norad
     {
+        let mut descs = layer_order_cases(&mut rng, tier == "thorough");
+        // closed contours started anywhere (every rotation): quadratic, off-curve only, cubic
+        descs.extend(contour_rotation_cases());
+        if tier == "thorough" {
+            descs.extend(contour_rotation_cases());
+        }
         let cases: Vec<(u64, String, String, PV)> =
-            layer_order_cases(&mut rng, tier == "thorough").into_iter().map(|dsc| (rng.next() >> 1, "-".to_string(), "all".to_string(), dsc)).collect();
+            descs.into_iter().map(|dsc| (rng.next() >> 1, "-".to_string(), "all".to_string(), dsc)).collect();
         let obs = run_i2n(&cases, &scratch);
         for ((s, want, req, desc), o) in cases.iter().zip(obs) {
             writeln!(out, "C05 i2n {} {} {} {} => {}", s, want, req, desc.encode(), o).unwrap();
